@@ -11,11 +11,12 @@ def run(ck, ctx):
         "forms, in both keyword spellings, with positive / negative / 64-bit values: the statement is accepted, every option "
         "is folded on its own, and each fold adds exactly one key holding int(value) / False / True while schema and name "
         "stay as written. Isolation between statements is the per-statement flag reset (T-RESET, shared with C03).")
-    ex = run_fragment(ck, ctx, "sequence", tier=ck.tier)
-    S.t_reset_lexer(ck, ctx, only=ex.flags_touched)
+    # the flags the sequence statement touches (sequence mode, last token ...) must be reset before every statement
+    S.t_reset_lexer(ck, ctx, only={"sequence", "last_token", "is_table", "last_par", "lp_open", "columns_def", "after_columns"})
     S.t_dom(ck, ctx, "process_line", S.is_self_call("set_default_flags_in_lexer"), S.is_self_call("process_statement"),
             "Parser.process_line: flag reset dominates process_statement()",
             "the sequence-mode flag must be cleared before every statement, on every path, or options leak into neighbours")
     ck.floor("T-RESET.lexer", 2)
+    ex = run_fragment(ck, ctx, "sequence", tier=ck.tier)
     ck.assumptions += ["words are separated as pre_process_data intends (L1 behaviour is declined, DESIGN 8)",
                        "int() on a decimal literal is exact (CPython)"]
